@@ -78,7 +78,9 @@ func (s bitmap64) Remove(value uint64) {
 func (s bitmap64) Xor(provider Provider[uint64]) {
 	switch typedProvider := provider.(type) {
 	case bitmap64:
-		s.bitmap.Xor(typedProvider.bitmap)
+		// roaring64's Xor inserts a 32 bit sub-bitmap of its operand into the receiver by reference when the receiver
+		// has nothing under that key, so the operand is handed over as a copy
+		s.bitmap.Xor(typedProvider.bitmap.Clone())
 
 	case Duplex[uint64]:
 		providerCopy := roaring64.New()
